@@ -43,7 +43,9 @@ CLAIMS = {
         "after all events; every TRACEV3_* constant either used by the scan or dispatched to the state of its name; "
         "list-valued sections accumulate and all are reset per parse; log records decoded in order with the inverted string "
         "index and the guarded table extension; seek_until stops right after the FIRST occurrence of each tag the parser "
-        "passes and raises at end of stream (for any stream; a wrong scanner is reported with the shortest witness stream).",
+        "passes and raises at end of stream (for any stream; a wrong scanner is reported with the shortest witness stream); an "
+        "additional-data block is framed as tag[8] + u64 length + payload + filler to 8 bytes (explicit filler functions and "
+        "alignment moduli are evaluated for payload lengths 0..63).",
         "Scanners outside the two decided families (block reads, nested loops) give exit 2. Agreement of the tag scan with real stackshot contents, the seek(-8,1) rewind and the Select fallback depend on file "
         "bytes and are not decided.",
         "DESIGN.md §4 C03"),
